@@ -20,6 +20,12 @@ Theorem C14_wrap_range : forall n : Z,
 Proof. exact C14_proofs.C14_wrap_range. Qed.
 Print Assumptions C14_wrap_range.
 
+(* the fuel is not a restriction: any larger fuel gives the same result, i.e. both loops have reached their exit
+   condition (this is the termination argument of the two while loops) *)
+Theorem C14_wrap_fuel : forall (n : Z) (f : nat), (wrap_fuel n <= f)%nat -> wrap_down f (wrap_up f n) = wrap n.
+Proof. exact C14_proofs.C14_wrap_fuel. Qed.
+Print Assumptions C14_wrap_fuel.
+
 (* wrap is the identity exactly on the playable range *)
 Theorem C14_wrap_id : forall n : Z, wrap n = n <-> NOTE_LOWER_BOUND <= n <= NOTE_UPPER_BOUND.
 Proof. exact C14_proofs.C14_wrap_id. Qed.
